@@ -50,6 +50,19 @@ Proof.
 Qed.
 Print Assumptions C03_trexp_se3_is_expm_series.
 
+(* ... and for the twist given WITHOUT theta: the exponential series of the 4x4 matrix [theta S] itself sums to trexp(S, theta), S a unit twist *)
+Theorem C03_trexp_se3_general_is_expm_series : forall (v0 v1 v2 w0 w1 w2 th : R),
+  normsq3 Rops (w0,w1,w2) = 1 ->
+  forall i j, (i < 4)%nat -> (j < 4)%nat ->
+  is_series (fun k => e44 (mpow44 (se3_hat (vscale6r th (v0,v1,v2,w0,w1,w2))) k) i j / INR (fact k))
+            (e44 (trexp_unit Rops C03_thr (v0,v1,v2,w0,w1,w2) th) i j).
+Proof.
+  intros v0 v1 v2 w0 w1 w2 th Hw i j Hi Hj.
+  assert (HK : thr_ok C03_thr) by (unfold thr_ok, C03_thr; cbn; repeat split; lra).
+  exact (trexp_unit_is_exp_of_scaled_twist C03_thr v0 v1 v2 w0 w1 w2 th i j HK Hw Hi Hj).
+Qed.
+Print Assumptions C03_trexp_se3_general_is_expm_series.
+
 (* 2-D: trexp2(S, theta) on a unit se(2) twist S = (t0, t1, w), w = +-1, all 9 entries; [S] = se2_hat S *)
 Theorem C03_trexp2_is_expm_series : forall (t0 t1 w th : R), w * w = 1 ->
   let S := (t0,t1,w) in
